@@ -43,6 +43,8 @@ type evidence struct {
 
 type childRun struct {
 	batch    int
+	resumes  int
+	after    string
 	only     string
 	slow     int
 	out      string
@@ -135,7 +137,8 @@ func ParentMain(propID, tier string, seed uint64, replay string) int {
 	var viols []Violation
 	broken := []string{}
 	inconclusive := []string{}
-	for _, r := range runs {
+	for ri := 0; ri < len(runs); ri++ {
+		r := runs[ri]
 		if r.res != nil {
 			agg.Evaluations += r.res.Evaluations
 			for _, k := range r.res.NonTrivial {
@@ -185,6 +188,14 @@ func ParentMain(propID, tier string, seed uint64, replay string) int {
 				viols = append(viols, Violation{Key: "crash:" + fn, Case: open, Batch: r.batch,
 					What:   "process died: " + first,
 					Detail: map[string]any{"stack": Trunc(crashStack(logText), 20000)}})
+				// Carry on with the rest of this batch in a fresh process, so that one crash
+				// (possibly a known finding) does not hide everything scheduled after it.
+				if replay == "" && open != "" && r.only == "" && r.resumes < 6 {
+					rr := &childRun{batch: r.batch, slow: 1, after: open, resumes: r.resumes + 1}
+					runChildren(p, exe, tier, seed, nbatch, scratch, timeout, []*childRun{rr}, 1)
+					runs = append(runs, rr)
+					agg.Counters["resumed_after_crash"]++
+				}
 			default:
 				broken = append(broken, fmt.Sprintf("batch %d: child failed (%v) case=%q: %s", r.batch, r.exitErr, open, first))
 			}
@@ -379,8 +390,8 @@ func runChildren(p *Prop, exe, tier string, seed uint64, nbatch int, scratch str
 			defer wg.Done()
 			defer func() { <-sem }()
 			tag := fmt.Sprintf("b%d", r.batch)
-			if r.only != "" {
-				tag += "-only" + strconv.FormatInt(time.Now().UnixNano(), 36)
+			if r.only != "" || r.after != "" {
+				tag += "-x" + strconv.FormatInt(time.Now().UnixNano(), 36)
 			}
 			dir := filepath.Join(scratch, tag)
 			_ = os.MkdirAll(dir, 0o755)
@@ -393,6 +404,9 @@ func runChildren(p *Prop, exe, tier string, seed uint64, nbatch int, scratch str
 				"-out", r.out, "-journal", r.journal}
 			if r.only != "" {
 				args = append(args, "-only", r.only)
+			}
+			if r.after != "" {
+				args = append(args, "-after", r.after)
 			}
 			cmd := exec.Command(exe, args...)
 			lf, err := os.Create(r.log)
